@@ -259,3 +259,93 @@ Proof.
     + split; [intro E; congruence | intros [m Hm]; rewrite B in Hm; contradiction].
     + intro E. congruence.
 Qed.
+
+(* ---- resumed handshakes --------------------------------------------------------------- *)
+
+Inductive rrun :=
+| ResumeAsClient (c : cfg) (e : sentry) (rp : rreply)
+| ResumeAsServer (c : cfg) (found : option sentry).
+Definition rrun_cfg (x : rrun) : cfg := match x with ResumeAsClient c _ _ | ResumeAsServer c _ => c end.
+Definition rrun_out (x : rrun) : outcome :=
+  match x with ResumeAsClient c e rp => client_resume c e rp | ResumeAsServer c f => server_resume c f end.
+(* the entry that was resumed, if the handshake got that far *)
+Definition rrun_entry (x : rrun) : option sentry :=
+  match x with ResumeAsClient _ e _ => Some e | ResumeAsServer _ f => f end.
+
+Definition resumed_good (c : cfg) (e : sentry) (r : result) : Prop :=
+  r_enc r = g_encrypted r /\
+  r_auth r = entry_authenticated e /\
+  g_ran r = [] /\
+  (g_encrypted r = true -> usable_key e = true /\ g_key r = Some KCached) /\
+  (g_encrypted r = false -> g_key r = None) /\
+  (needs_protection c = true -> g_encrypted r = true) /\
+  (c_auth c = Rq -> entry_authenticated e = true).
+
+Lemma resumed_result_good c e enc r :
+  resumed_result c e enc = Ok r -> (enc = true -> usable_key e = true) -> resumed_good c e r.
+Proof.
+  unfold resumed_result. intros H Hu.
+  destruct (negb enc && needs_protection c) eqn:E1; [discriminate|].
+  destruct (is_rq (c_auth c) && negb (entry_authenticated e)) eqn:E2; [discriminate|].
+  inversion H; subst; simpl. unfold resumed_good; simpl.
+  split; [reflexivity|]. split; [reflexivity|]. split; [reflexivity|]. split; [|split; [|split]].
+  - intro E. rewrite E. auto.
+  - intro E. rewrite E. reflexivity.
+  - intro P. rewrite P in E1. destruct enc; [reflexivity | discriminate].
+  - intro Hc. rewrite Hc in E2. simpl in E2. apply negb_false_iff in E2. exact E2.
+Qed.
+
+Lemma rrun_ok x r : rrun_out x = Ok r -> exists e, rrun_entry x = Some e /\ resumed_good (rrun_cfg x) e r.
+Proof.
+  destruct x as [c e rp | c f]; simpl; intro H.
+  - exists e. split; [reflexivity|]. unfold client_resume in H.
+    destruct rp as [|rc]; [discriminate|]. destruct (rc_rejects rc); [discriminate|].
+    destruct (e_key e) as [|a|a|a] eqn:K.
+    + apply resumed_result_good in H; [assumption | discriminate].
+    + apply resumed_result_good in H; [assumption | discriminate].
+    + destruct a.
+      * apply resumed_result_good in H; [assumption|]. intros _. unfold usable_key. rewrite K. reflexivity.
+      * destruct (needs_protection c); [discriminate|]. apply resumed_result_good in H; [assumption | discriminate].
+    + destruct a; [discriminate|].
+      destruct (needs_protection c); [discriminate|]. apply resumed_result_good in H; [assumption | discriminate].
+  - unfold server_resume in H. destruct f as [e|]; [|discriminate].
+    exists e. split; [reflexivity|]. destruct (usable_key e) eqn:U; [|discriminate].
+    apply resumed_result_good in H; auto.
+Qed.
+
+Lemma resumed_auth_required x r :
+  rrun_out x = Ok r -> c_auth (rrun_cfg x) = Rq ->
+  exists e, rrun_entry x = Some e /\ e_authed e = Some true.
+Proof.
+  intros H Hc. destruct (rrun_ok _ _ H) as [e [He G]]. exists e. split; [assumption|].
+  destruct G as (_ & _ & _ & _ & _ & _ & A). specialize (A Hc).
+  unfold entry_authenticated in A. destruct (e_authed e) as [[|]|]; try discriminate. reflexivity.
+Qed.
+
+Lemma resumed_enc_required x r :
+  rrun_out x = Ok r -> (c_enc (rrun_cfg x) = Rq \/ c_integ (rrun_cfg x) = Rq) ->
+  g_encrypted r = true /\ g_key r = Some KCached /\
+  exists e, rrun_entry x = Some e /\ usable_key e = true.
+Proof.
+  intros H Hr. destruct (rrun_ok _ _ H) as [e [He G]].
+  destruct G as (_ & _ & _ & B & _ & D & _).
+  assert (P : needs_protection (rrun_cfg x) = true).
+  { unfold needs_protection. destruct Hr as [-> | ->]; simpl; [reflexivity | apply orb_true_r]. }
+  specialize (D P). destruct (B D) as [U K]. repeat split; auto. exists e. auto.
+Qed.
+
+Lemma resumed_report x r :
+  rrun_out x = Ok r ->
+  r_enc r = g_encrypted r /\ (g_encrypted r = true <-> g_key r <> None) /\
+  g_ran r = [] /\
+  exists e, rrun_entry x = Some e /\ (r_auth r = true <-> e_authed e = Some true).
+Proof.
+  intros H. destruct (rrun_ok _ _ H) as [e [He G]].
+  destruct G as (A & B & C & D & E & _ & _).
+  split; [assumption|]. split.
+  { split.
+    - intro K. destruct (D K) as [_ K2]. rewrite K2. discriminate.
+    - intro K. destruct (g_encrypted r) eqn:G; [reflexivity|]. rewrite (E eq_refl) in K. congruence. }
+  split; [assumption|]. exists e. split; [assumption|].
+  rewrite B. unfold entry_authenticated. destruct (e_authed e) as [[|]|]; split; intro X; congruence.
+Qed.
